@@ -91,6 +91,11 @@ impl<'tcx> Cx<'tcx> {
         self.tcx.def_path_str(did)
     }
 
+    /// Canonical path: crate name + definition path, independent of re-exports / visible paths.
+    fn cpath(&self, did: DefId) -> String {
+        format!("{}{}", self.tcx.crate_name(did.krate), self.tcx.def_path(did).to_string_no_crate_verbose())
+    }
+
     fn generic_args(&self, args: GenericArgsRef<'tcx>) -> String {
         jarr(args.iter().map(|a| match a.kind() {
             GenericArgKind::Type(t) => format!("{}", self.ty(t)),
@@ -117,8 +122,9 @@ impl<'tcx> Cx<'tcx> {
         let body = match t.kind() {
             ty::Param(p) => format!("\"k\":\"param\",\"name\":{},\"idx\":{}", jstr(p.name.as_str()), p.index),
             ty::Adt(def, args) => format!(
-                "\"k\":\"adt\",\"path\":{},\"local\":{},\"args\":{}",
+                "\"k\":\"adt\",\"path\":{},\"cpath\":{},\"local\":{},\"args\":{}",
                 jstr(&self.path(def.did())),
+                jstr(&self.cpath(def.did())),
                 def.did().is_local(),
                 self.generic_args(args)
             ),
@@ -136,20 +142,22 @@ impl<'tcx> Cx<'tcx> {
                 let akind = format!("{:?}", al.kind);
                 let akind = akind.split(|c: char| !c.is_alphanumeric()).next().unwrap_or("").to_string();
                 format!(
-                    "\"k\":\"alias\",\"akind\":{},\"def\":{},\"name\":{},\"args\":{}",
+                    "\"k\":\"alias\",\"akind\":{},\"def\":{},\"cdef\":{},\"name\":{},\"args\":{}",
                     jstr(&akind),
                     jstr(&self.path(did)),
+                    jstr(&self.cpath(did)),
                     jstr(self.tcx.opt_item_name(did).map(|s| s.to_string()).unwrap_or_default().as_str()),
                     self.generic_args(al.args)
                 )
             }
             ty::FnDef(did, args) => format!(
-                "\"k\":\"fndef\",\"path\":{},\"args\":{}",
+                "\"k\":\"fndef\",\"path\":{},\"cpath\":{},\"args\":{}",
                 jstr(&self.path(*did)),
+                jstr(&self.cpath(*did)),
                 self.generic_args(args)
             ),
-            ty::Closure(did, _) => format!("\"k\":\"closure\",\"path\":{}", jstr(&self.path(*did))),
-            ty::Coroutine(did, _) => format!("\"k\":\"coroutine\",\"path\":{}", jstr(&self.path(*did))),
+            ty::Closure(did, _) => format!("\"k\":\"closure\",\"path\":{},\"cpath\":{}", jstr(&self.path(*did)), jstr(&self.cpath(*did))),
+            ty::Coroutine(did, _) => format!("\"k\":\"coroutine\",\"path\":{},\"cpath\":{}", jstr(&self.path(*did)), jstr(&self.cpath(*did))),
             ty::CoroutineClosure(did, _) => format!("\"k\":\"coroutine_closure\",\"path\":{}", jstr(&self.path(*did))),
             ty::Bool | ty::Char | ty::Int(_) | ty::Uint(_) | ty::Float(_) | ty::Str => {
                 format!("\"k\":\"prim\",\"name\":{}", jstr(&disp))
@@ -314,9 +322,11 @@ impl<'tcx> Cx<'tcx> {
         let path = self.path(did);
         let name = tcx.opt_item_name(did).map(|s| s.to_string()).unwrap_or_default();
         let mut tr: Option<String> = None;
+        let mut tr_c: Option<String> = None;
         let mut self_ty: Option<usize> = None;
         if let Some(t) = tcx.trait_of_assoc(did) {
             tr = Some(self.path(t));
+            tr_c = Some(self.cpath(t));
             if !args.is_empty() {
                 if let Some(t0) = args.get(0).and_then(|a| a.as_type()) {
                     self_ty = Some(self.ty(t0));
@@ -329,6 +339,7 @@ impl<'tcx> Cx<'tcx> {
             impl_self = Some(self.ty(st));
         }
         let mut resolved: Option<String> = None;
+        let mut resolved_c: Option<String> = None;
         let mut resolved_local = false;
         let mut resolved_impl_self: Option<usize> = None;
         let kind_ok = matches!(tcx.def_kind(did), DefKind::Fn | DefKind::AssocFn | DefKind::Ctor(..) | DefKind::Closure);
@@ -338,6 +349,7 @@ impl<'tcx> Cx<'tcx> {
             if let Ok(Ok(Some(inst))) = r {
                 let rd = inst.def_id();
                 resolved = Some(self.path(rd));
+                resolved_c = Some(self.cpath(rd));
                 resolved_local = rd.is_local();
                 if let Some(imp) = tcx.impl_of_assoc(rd) {
                     let st = tcx.type_of(imp).instantiate_identity().skip_norm_wip();
@@ -346,15 +358,18 @@ impl<'tcx> Cx<'tcx> {
             }
         }
         format!(
-            "{{\"path\":{},\"name\":{},\"local\":{},\"trait\":{},\"self_ty\":{},\"impl_self\":{},\"args\":{},\"resolved\":{},\"resolved_local\":{},\"resolved_impl_self\":{}}}",
+            "{{\"path\":{},\"cpath\":{},\"name\":{},\"local\":{},\"trait\":{},\"trait_c\":{},\"self_ty\":{},\"impl_self\":{},\"args\":{},\"resolved\":{},\"resolved_c\":{},\"resolved_local\":{},\"resolved_impl_self\":{}}}",
             jstr(&path),
+            jstr(&self.cpath(did)),
             jstr(&name),
             did.is_local(),
             jopt(tr.map(|s| jstr(&s))),
+            jopt(tr_c.map(|s| jstr(&s))),
             jopt(self_ty.map(|i| i.to_string())),
             jopt(impl_self.map(|i| i.to_string())),
             self.generic_args(args),
             jopt(resolved.map(|s| jstr(&s))),
+            jopt(resolved_c.map(|s| jstr(&s))),
             resolved_local,
             jopt(resolved_impl_self.map(|i| i.to_string())),
         )
@@ -407,7 +422,19 @@ impl<'tcx> Cx<'tcx> {
                 jstr(&format!("{:?}", op)),
                 self.operand(owner, body, a)
             ),
-            Rvalue::Discriminant(p) => format!("{{\"k\":\"discr\",\"place\":{}}}", self.place(body, p)),
+            Rvalue::Discriminant(p) => {
+                let pty = p.ty(&body.local_decls, self.tcx).ty;
+                let mut extra = String::new();
+                if let ty::Adt(def, _) = pty.kind() {
+                    if def.is_enum() {
+                        let vs = jarr(def.discriminants(self.tcx).map(|(vi, d)| {
+                            format!("[{},{}]", jstr(def.variant(vi).name.as_str()), d.val)
+                        }));
+                        let _ = write!(extra, ",\"adt\":{},\"variants\":{}", jstr(&self.cpath(def.did())), vs);
+                    }
+                }
+                format!("{{\"k\":\"discr\",\"place\":{}{}}}", self.place(body, p), extra)
+            }
             Rvalue::Aggregate(kind, fields) => {
                 let k = match &**kind {
                     AggregateKind::Array(t) => format!("\"ak\":\"array\",\"ty\":{}", self.ty(*t)),
@@ -417,8 +444,9 @@ impl<'tcx> Cx<'tcx> {
                         let v = def.variant(*vidx);
                         let fnames = jarr(v.fields.iter().map(|f| jstr(f.name.as_str())));
                         format!(
-                            "\"ak\":\"adt\",\"path\":{},\"local\":{},\"variant\":{},\"vname\":{},\"fnames\":{},\"args\":{},\"active\":{}",
+                            "\"ak\":\"adt\",\"path\":{},\"cpath\":{},\"local\":{},\"variant\":{},\"vname\":{},\"fnames\":{},\"args\":{},\"active\":{}",
                             jstr(&self.path(*did)),
+                            jstr(&self.cpath(*did)),
                             did.is_local(),
                             vidx.as_usize(),
                             jstr(v.name.as_str()),
@@ -427,8 +455,8 @@ impl<'tcx> Cx<'tcx> {
                             jopt(active.map(|f| f.as_usize().to_string()))
                         )
                     }
-                    AggregateKind::Closure(did, _) => format!("\"ak\":\"closure\",\"path\":{}", jstr(&self.path(*did))),
-                    AggregateKind::Coroutine(did, _) => format!("\"ak\":\"coroutine\",\"path\":{}", jstr(&self.path(*did))),
+                    AggregateKind::Closure(did, _) => format!("\"ak\":\"closure\",\"path\":{},\"cpath\":{}", jstr(&self.path(*did)), jstr(&self.cpath(*did))),
+                    AggregateKind::Coroutine(did, _) => format!("\"ak\":\"coroutine\",\"path\":{},\"cpath\":{}", jstr(&self.path(*did)), jstr(&self.cpath(*did))),
                     AggregateKind::CoroutineClosure(did, _) => {
                         format!("\"ak\":\"coroutine_closure\",\"path\":{}", jstr(&self.path(*did)))
                     }
@@ -580,11 +608,13 @@ impl<'tcx> Cx<'tcx> {
         // the item that carries impl/trait information is the typeck root (for closures/coroutines)
         let mut impl_def: Option<String> = None;
         let mut impl_trait: Option<String> = None;
+        let mut impl_trait_c: Option<String> = None;
         let mut impl_self: Option<usize> = None;
         if let Some(imp) = tcx.impl_of_assoc(root) {
-            impl_def = Some(self.path(imp));
+            impl_def = Some(self.cpath(imp));
             if let Some(tr) = tcx.impl_opt_trait_ref(imp) {
                 impl_trait = Some(self.path(tr.skip_binder().def_id));
+                impl_trait_c = Some(self.cpath(tr.skip_binder().def_id));
             }
             impl_self = Some(self.ty(tcx.type_of(imp).instantiate_identity().skip_norm_wip()));
         }
@@ -620,14 +650,16 @@ impl<'tcx> Cx<'tcx> {
         }));
         // upvar / coroutine captured types are in local 1's type (closure env); nothing special here.
         format!(
-            "{{\"def\":{},\"kind\":{},\"name\":{},\"root\":{},\"root_name\":{},\"impl\":{},\"impl_trait\":{},\"impl_self\":{},\"trait_def\":{},\"coroutine_kind\":{},\"span\":{},\"mac\":{},\"argc\":{},\"locals\":{},\"blocks\":{}}}",
+            "{{\"def\":{},\"cdef\":{},\"kind\":{},\"name\":{},\"root\":{},\"root_name\":{},\"impl\":{},\"impl_trait\":{},\"impl_trait_c\":{},\"impl_self\":{},\"trait_def\":{},\"coroutine_kind\":{},\"span\":{},\"mac\":{},\"argc\":{},\"locals\":{},\"blocks\":{}}}",
             jstr(&self.path(did)),
+            jstr(&self.cpath(did)),
             jstr(&kind),
             jstr(&name),
             jstr(&self.path(root)),
             jstr(&root_name),
             jopt(impl_def.map(|s| jstr(&s))),
             jopt(impl_trait.map(|s| jstr(&s))),
+            jopt(impl_trait_c.map(|s| jstr(&s))),
             jopt(impl_self.map(|i| i.to_string())),
             jopt(trait_def.map(|s| jstr(&s))),
             jopt(coroutine_kind.map(|s| jstr(&s))),
@@ -709,8 +741,9 @@ impl Callbacks for Cb {
                     }));
                     let sp = tcx.def_span(did);
                     adts.push(format!(
-                        "{{\"path\":{},\"kind\":{},\"public\":{},\"generics\":{},\"variants\":{},\"span\":{},\"mac\":{},\"has_drop\":{}}}",
+                        "{{\"path\":{},\"cpath\":{},\"kind\":{},\"public\":{},\"generics\":{},\"variants\":{},\"span\":{},\"mac\":{},\"has_drop\":{}}}",
                         jstr(&cx.path(did)),
+                        jstr(&cx.cpath(did)),
                         jstr(&format!("{:?}", tcx.def_kind(did))),
                         vis.is_reachable(id),
                         gnames,
@@ -724,7 +757,7 @@ impl Callbacks for Cb {
                     let self_ty = tcx.type_of(did).instantiate_identity().skip_norm_wip();
                     let (tr, tr_args) = if of_trait {
                         let r = tcx.impl_trait_ref(did).instantiate_identity().skip_norm_wip();
-                        (Some(cx.path(r.def_id)), cx.generic_args(r.args))
+                        (Some(cx.cpath(r.def_id)), cx.generic_args(r.args))
                     } else {
                         (None, "[]".to_string())
                     };
@@ -744,14 +777,14 @@ impl Callbacks for Cb {
                             "{{\"name\":{},\"kind\":\"{}\",\"def\":{},\"ty\":{}}}",
                             jstr(it.opt_name().map(|n| n.to_string()).unwrap_or_default().as_str()),
                             kind,
-                            jstr(&cx.path(it.def_id)),
+                            jstr(&cx.cpath(it.def_id)),
                             jopt(tyix.map(|i| i.to_string()))
                         ));
                     }
                     let sp = tcx.def_span(did);
                     impls.push(format!(
                         "{{\"def\":{},\"trait\":{},\"trait_args\":{},\"self_ty\":{},\"items\":{},\"span\":{},\"mac\":{}}}",
-                        jstr(&cx.path(did)),
+                        jstr(&cx.cpath(did)),
                         jopt(tr.map(|s| jstr(&s))),
                         tr_args,
                         cx.ty(self_ty),
